@@ -322,7 +322,7 @@ def run(ctx):
             for cls, e in res_known.items():
                 if res_known_hits.get(cls):
                     ctx.known("%s [%s] (%d of the replayed pairs)" % (e["what"], e["key"], res_known_hits[cls]))
-                    ctx.assumptions.append("known finding %s: pairs of class %s whose result is the unchanged reference are not reported again" % (e["key"], cls))
+                    ctx.assumptions.append("known finding %s: pairs of class %s that fail in the listed way (%s) are not reported again; any other deviation is" % (e["key"], cls, e.get("mode")))
         ctx.coverage["resolve_pairs_replayed"] = res_checked
         if wiring_bad:
             ctx.inconc("real validators disagree with the extracted patterns on %d corpus strings: the patterns are not the whole validator" % wiring_bad)
